@@ -12,19 +12,22 @@ The model mirrors what the code *does*, including:
     definition of its last one;
   * `include_macro` de-duplicates the field list of every macro it returns and `parse_object_template`
     de-duplicates again; friends are never de-duplicated;
-  * the macro cycle check looks at `parent_macros` only, and `parse_object_template` always starts
-    `parse_inclusions` with `parent_macros=()`: a macro that reaches itself through a *nested template*
-    (a friend or an object-valued field of the macro) is not detected — the recursion is unbounded
-    (`Err.fuel` for every fuel; on the code a `RecursionError`);
+  * two macro cycle checks: `parent_macros` (the chain of `include:` lines; `parse_object_template`
+    always restarts it with `parent_macros=()`) and, since the repair of D46 (commit 97f2c27), the stack
+    `context.macros_being_expanded` of *all* macros under expansion — a macro that reaches itself
+    through a nested template (a friend or an object-valued field of the macro) is `Err.macroNested`;
   * macros are kept unparsed in `context.macros` (a dict: a later definition of the same name replaces
     the earlier one) and are expanded only after *all* files have been read, so every template — also
     one that comes from an included file — sees the final definition;
   * `parse_top_level_elements` reads all included files (depth first, in the order of the
     `include_file` lines, wherever those lines are) *before* it registers its own options and macros and
-    before its own statements; file inclusion has **no** cycle check;
-  * `context.version = parse_version(<the declarations of this file>)` is an assignment: the file parsed
-    last (the main file) decides, a version declared only in an included file is lost, and conflicting
-    versions in different files are not detected;
+    before its own statements; since the repair of D45 (commit 70277f6) `parse_included_file` keeps the
+    *stack* `context.files_being_parsed` (push before, pop after reading the file; the main file is not
+    on it) and a file reached again while it is open is `Err.includeCycle` — a file may still be included
+    any number of times from different places (twice, diamonds), nothing is remembered after the pop;
+  * since the repair of D47 (commit 6931335): `own_version = parse_version(<declarations of this file>)`;
+    a file without declaration leaves `context.version` as the included files set it; an own version
+    that differs from a version already set is the same error as a conflict inside one file;
   * the two tests of `merge_options` are parameters of the model (`Test.truthyGet` for `d.get(k)`,
     `Test.contains` for `k in d`), pinned from the AST: `name in user_options` / `"default" in option`
     since the repair of D12 (commit d8c74a2; before: truthiness of `user_options.get(name)` /
@@ -127,7 +130,9 @@ inductive Err where
   | fuel
   | noMacro (name : String)                          -- DataGenNameError "Cannot find macro named …"
   | macroCycle (parents : List String) (name : String)  -- DataGenError "Macro `a` calls `b` which calls `a`"
+  | macroNested (name : String)                      -- DataGenError "Macro `a` includes itself through a nested object template"
   | noFile (name : String)                           -- DataGenError "Cannot load include file …"
+  | includeCycle (name : String)                     -- DataGenError "Include file … includes itself"
   | versionConflict                                  -- "Cannot have multiple conflicting versions …"
   | badVersion                                       -- "Version must be 2 or 3"
   | noOption (name : String)                         -- DataGenNameError "No definition supplied for option …"
@@ -148,69 +153,72 @@ abbrev Incl := AList PDef × List PStmt
 def concatIncl (rs : List Incl) : Incl := (rs.flatMap (·.1), rs.flatMap (·.2))
 
 mutual
-  /-- `parse_field_value` (the part that matters here: nested templates are parsed recursively) -/
-  def pDef : Nat → AList RMacro → RDef → Except Err PDef
-    | 0, _, _ => .error .fuel
-    | _ + 1, _, .val p => .ok (.val p)
-    | f + 1, ms, .nested t =>
-      match pTemplate f ms t with
+  /-- `parse_field_value` (the part that matters here: nested templates are parsed recursively).
+      `exp` is `context.macros_being_expanded`. -/
+  def pDef : Nat → AList RMacro → List String → RDef → Except Err PDef
+    | 0, _, _, _ => .error .fuel
+    | _ + 1, _, _, .val p => .ok (.val p)
+    | f + 1, ms, exp, .nested t =>
+      match pTemplate f ms exp t with
       | .error e => .error e
       | .ok r => .ok (.nested r)
 
   /-- one element of `parse_statement_list` -/
-  def pStmt : Nat → AList RMacro → RStmt → Except Err PStmt
-    | 0, _, _ => .error .fuel
-    | f + 1, ms, .var n d =>
-      match pDef f ms d with
+  def pStmt : Nat → AList RMacro → List String → RStmt → Except Err PStmt
+    | 0, _, _, _ => .error .fuel
+    | f + 1, ms, exp, .var n d =>
+      match pDef f ms exp d with
       | .error e => .error e
       | .ok r => .ok (.var n r)
-    | f + 1, ms, .obj t =>
-      match pTemplate f ms t with
+    | f + 1, ms, exp, .obj t =>
+      match pTemplate f ms exp t with
       | .error e => .error e
       | .ok r => .ok (.obj r)
 
   /-- `parse_object_template`: inclusions (with `parent_macros=()`), own fields, own friends, de-dup -/
-  def pTemplate : Nat → AList RMacro → RTemplate → Except Err PTemplate
-    | 0, _, _ => .error .fuel
-    | f + 1, ms, t =>
-      match mapE (fun n => includeMacro f ms [] n) t.incl with
+  def pTemplate : Nat → AList RMacro → List String → RTemplate → Except Err PTemplate
+    | 0, _, _, _ => .error .fuel
+    | f + 1, ms, exp, t =>
+      match mapE (fun n => includeMacro f ms exp [] n) t.incl with
       | .error e => .error e
       | .ok incs =>
-        match mapE (fun p => match pDef f ms p.2 with
+        match mapE (fun p => match pDef f ms exp p.2 with
                              | .error e => .error e
                              | .ok d => .ok (p.1, d)) t.fields with
         | .error e => .error e
         | .ok own =>
-          match mapE (fun s => pStmt f ms s) t.friends with
+          match mapE (fun s => pStmt f ms exp s) t.friends with
           | .error e => .error e
           | .ok ofr =>
             .ok (.mk t.table t.attrs (dedupe ((concatIncl incs).1 ++ own)) ((concatIncl incs).2 ++ ofr))
 
-  /-- `include_macro(name, context, parent_macros)` -/
-  def includeMacro : Nat → AList RMacro → List String → String → Except Err Incl
-    | 0, _, _, _ => .error .fuel
-    | f + 1, ms, parents, name =>
+  /-- `include_macro(name, context, parent_macros)`; `exp` = `context.macros_being_expanded`
+      (every parent is on it; the macro is pushed while its inclusions, fields and friends are parsed) -/
+  def includeMacro : Nat → AList RMacro → List String → List String → String → Except Err Incl
+    | 0, _, _, _, _ => .error .fuel
+    | f + 1, ms, exp, parents, name =>
       match ms.lookup name with
       | none => .error (.noMacro name)
       | some m =>
+        if !parents.contains name && exp.contains name then .error (.macroNested name) else
         if parents.contains name then .error (.macroCycle parents name) else
-        match mapE (fun n => includeMacro f ms (parents ++ [name]) n) m.incl with
+        match mapE (fun n => includeMacro f ms (exp ++ [name]) (parents ++ [name]) n) m.incl with
         | .error e => .error e
         | .ok incs =>
-          match mapE (fun p => match pDef f ms p.2 with
+          match mapE (fun p => match pDef f ms (exp ++ [name]) p.2 with
                                | .error e => .error e
                                | .ok d => .ok (p.1, d)) m.fields with
           | .error e => .error e
           | .ok own =>
-            match mapE (fun s => pStmt f ms s) m.friends with
+            match mapE (fun s => pStmt f ms (exp ++ [name]) s) m.friends with
             | .error e => .error e
             | .ok ofr =>
               .ok (dedupe ((concatIncl incs).1 ++ own), (concatIncl incs).2 ++ ofr)
 end
 
 /-- `parse_fields` at a given fuel -/
-def pField (f : Nat) (ms : AList RMacro) (p : String × RDef) : Except Err (String × PDef) :=
-  match pDef f ms p.2 with
+def pField (f : Nat) (ms : AList RMacro) (exp : List String) (p : String × RDef) : Except Err (String × PDef) :=
+  match pDef f ms exp p.2 with
   | .error e => .error e
   | .ok d => .ok (p.1, d)
 
@@ -288,28 +296,43 @@ def parseVersion (vs : List Int) : Except Err (Option Int) :=
     else if b != 2 && b != 3 then .error .badVersion
     else .ok (some b)
 
+/-- the version rule of `parse_top_level_elements`: a file without declaration keeps the version set by
+    the files it included; an own version must agree with a version already set -/
+def mergeVersion (inherited own : Option Int) : Except Err (Option Int) :=
+  match own with
+  | none => .ok inherited
+  | some v =>
+    match inherited with
+    | none => .ok (some v)
+    | some w => if w == v then .ok (some v) else .error .versionConflict
+
 /-- `parse_file` → `parse_top_level_elements`: included files first (depth first, context threaded
-    through), then this file's options, macros, version, then its statements. Files are looked up by
-    name in one flat directory. -/
-def parseFile : Nat → AList (List Item) → PCtx → String → Except Err (List RStmt × PCtx)
-  | 0, _, _, _ => .error .fuel
-  | f + 1, files, ctx, name =>
+    through; `stack` = `context.files_being_parsed`: a file that is still open is `includeCycle`), then
+    this file's options, macros, version, then its statements. Files are looked up by name in one flat
+    directory. -/
+def parseFile : Nat → AList (List Item) → List String → PCtx → String → Except Err (List RStmt × PCtx)
+  | 0, _, _, _, _ => .error .fuel
+  | f + 1, files, stack, ctx, name =>
     match files.lookup name with
     | none => .error (.noFile name)
     | some items =>
       match foldE (fun (acc : List RStmt × PCtx) n =>
-                    match parseFile f files acc.2 n with
+                    if stack.contains n then .error (.includeCycle n) else
+                    match parseFile f files (stack ++ [n]) acc.2 n with
                     | .error e => .error e
                     | .ok r => .ok (acc.1 ++ r.1, r.2)) ([], ctx) (includesOf items) with
       | .error e => .error e
       | .ok (incStmts, c1) =>
         match parseVersion (versionsOf items) with
         | .error e => .error e
-        | .ok v =>
-          .ok (incStmts ++ stmtsOf items,
-               { macros := dictUpdate c1.macros (macrosOf items),
-                 options := c1.options ++ optionsOf items,
-                 version := v })
+        | .ok own =>
+          match mergeVersion c1.version own with
+          | .error e => .error e
+          | .ok v =>
+            .ok (incStmts ++ stmtsOf items,
+                 { macros := dictUpdate c1.macros (macrosOf items),
+                   options := c1.options ++ optionsOf items,
+                   version := v })
 
 /-- what `parse_recipe` hands to the interpreter -/
 structure Parsed where
@@ -320,10 +343,10 @@ structure Parsed where
 
 /-- `parse_recipe`: read all files, then `parse_statement_list` with the final macro table -/
 def parseRecipe (fuel : Nat) (files : AList (List Item)) (main : String) : Except Err Parsed :=
-  match parseFile fuel files PCtx.empty main with
+  match parseFile fuel files [] PCtx.empty main with
   | .error e => .error e
   | .ok (stmts, ctx) =>
-    match mapE (fun s => pStmt fuel ctx.macros s) stmts with
+    match mapE (fun s => pStmt fuel ctx.macros [] s) stmts with
     | .error e => .error e
     | .ok ps => .ok ⟨ps, ctx.options, ctx.version⟩
 
